@@ -452,7 +452,7 @@ func (doc *T) derefPaths(paths map[string]*PathItem, refNameResolver RefNameReso
 			// a callback may lead back to a path item that is being internalized
 			continue
 		}
-		pathIsExternal := isExternalRef(ops.Ref, parentIsExternal)
+		pathIsExternal := parentIsExternal || isExternalRef(ops.Ref, false)
 		// inline full operations
 		ops.Ref = ""
 
